@@ -164,6 +164,7 @@ def stepOne (st : St) : List String → St × List String
   -- `grow` adds a member to such a container: no table of the Lexicon is involved
   | "product_live" :: l :: ts => match st.ref? l, refs st ts with | some _, some ts => st.request (.productSeq ts) | _, _ => bad st
   | "sum_live" :: l :: ts => match st.ref? l, refs st ts with | some _, some ts => st.request (.sumSeq ts) | _, _ => bad st
+  | ["xgrow", l, e] => match refs st [l, e] with | some _ => (st, ["ok"]) | none => bad st
   | ["grow", l, n, t] => match refs st [l, n, t] with | some _ => (st, ["ok"]) | none => bad st
   | ["forall", s, t] => match refs st [s, t] with | some [s, t] => st.request (.forall_ s t) | _ => bad st
   | ["ptr_to_member", c, t] => match refs st [c, t] with | some [c, t] => st.request (.ptrToMember c t) | _ => bad st
